@@ -159,3 +159,45 @@ impl McNetwork {
         }
     }
 }
+
+/// Verification hook: plain dump of the network settings.
+#[cfg(anysystem_verif)]
+#[derive(Debug, Clone, PartialEq)]
+pub struct VerifNetDump {
+    /// Rates: corrupt, dupl, drop.
+    pub rates: (f64, f64, f64),
+    /// Nodes with dropped incoming traffic (sorted).
+    pub drop_incoming: Vec<String>,
+    /// Nodes with dropped outgoing traffic (sorted).
+    pub drop_outgoing: Vec<String>,
+    /// Disabled links (sorted).
+    pub disabled_links: Vec<(String, String)>,
+    /// Process locations (sorted).
+    pub proc_locations: Vec<(String, String)>,
+    /// Max delay.
+    pub max_delay: f64,
+}
+
+#[cfg(anysystem_verif)]
+impl McNetwork {
+    /// Verification hook: plain dump of the network settings.
+    pub fn verif_dump(&self) -> VerifNetDump {
+        let mut drop_incoming: Vec<String> = self.drop_incoming.iter().cloned().collect();
+        drop_incoming.sort();
+        let mut drop_outgoing: Vec<String> = self.drop_outgoing.iter().cloned().collect();
+        drop_outgoing.sort();
+        let mut disabled_links: Vec<(String, String)> = self.disabled_links.iter().cloned().collect();
+        disabled_links.sort();
+        let mut proc_locations: Vec<(String, String)> =
+            self.proc_locations.iter().map(|(k, v)| (k.clone(), v.clone())).collect();
+        proc_locations.sort();
+        VerifNetDump {
+            rates: (self.corrupt_rate, self.dupl_rate, self.drop_rate),
+            drop_incoming,
+            drop_outgoing,
+            disabled_links,
+            proc_locations,
+            max_delay: self.max_delay,
+        }
+    }
+}
